@@ -17,6 +17,16 @@ def bound_iter_of(name: str, at: ast.AST) -> Optional[ast.AST]:
     return None
 
 
+def pending_names(fn: FuncInfo) -> set[str]:
+    """locals that receive the not-yet-finished set of asyncio.wait(): `done, pending = await asyncio.wait(..)`, and copies `pending = set(tasks)`"""
+    out = set()
+    for n in walk_local(fn.node):
+        if isinstance(n, ast.Assign) and isinstance(n.targets[0], ast.Tuple) and len(n.targets[0].elts) == 2 and \
+                any(isinstance(x, ast.Call) and call_name(x) == 'wait' for x in ast.walk(n.value)) and isinstance(n.targets[0].elts[1], ast.Name):
+            out.add(n.targets[0].elts[1].id)
+    return out
+
+
 def cancel_release(fn: FuncInfo, resource_names: set[str]):
     """CFG-node predicate: the node cancels (all of) the tracked futures/tasks."""
     def pred(n: Node) -> bool:
@@ -28,7 +38,7 @@ def cancel_release(fn: FuncInfo, resource_names: set[str]):
             neg = n.polarity
             if isinstance(e, ast.UnaryOp) and isinstance(e.op, ast.Not):
                 e, neg = e.operand, not neg
-            return isinstance(e, ast.Name) and e.id in resource_names and e.id == 'pending' and not neg
+            return isinstance(e, ast.Name) and e.id in resource_names and e.id in pending_names(fn) and not neg
         if n.kind == 'loop':
             # a loop whose body cancels its loop variable, iterating the tracked collection
             body_cancels = any(call_name(c) == 'cancel' and isinstance(c.func.value, ast.Name) and isinstance(n.ast.target, ast.Name)
@@ -68,7 +78,7 @@ def run(eng: Engine, ck: Check):
                 acquisitions.append((n, n.targets[0].id, 'cannot-connect waiter (expected response future)'))
     ck.floor('R-C11-WAITERS', len(acquisitions), 2)
     fut_names = {nm for _, nm, _ in acquisitions}
-    tracked = set(fut_names) | {'pending', 'futures'}
+    tracked = set(fut_names) | pending_names(ind)
     # names of tuples/collections built from the futures
     for k, v in single_assignments(ind).items():
         if isinstance(v, (ast.Tuple, ast.List, ast.Set)) and all(isinstance(e, ast.Name) and e.id in fut_names for e in v.elts):
@@ -99,7 +109,7 @@ def run(eng: Engine, ck: Check):
              and call_name(n.value) == 'create_task' and isinstance(n.targets[0], ast.Name)]
     ck.floor('R-C11-LOSER', len(tasks), 2)
     tnames = {nm for _, nm in tasks}
-    tracked = set(tnames) | {'pending'}
+    tracked = set(tnames) | pending_names(race)
     for k, v in single_assignments(race).items():
         if isinstance(v, (ast.Tuple, ast.List, ast.Set)) and all(isinstance(e, ast.Name) and e.id in tnames for e in v.elts):
             tracked.add(k)
